@@ -181,3 +181,12 @@ func VerifC01_Precise_ConcurrentAtomic() {
 	verif.Parallel()
 	verif.Reach("end")
 }
+
+// VerifC01_Default_CompletionFreesExactlyOne: the gate can only hold the limit if a completion gives
+// back exactly ONE unit at the strategy (a completion that frees two lets the next acquires exceed
+// the limit while the real holders are still at it): the conservation step of C02 - DefaultLimiter
+// over each strategy kind from arbitrary counters, arbitrary measured RTT (also below the limiter's
+// minimum RTT threshold), each of the three outcomes - registered for C01 as well.
+//
+//verif:harness property=C01 theory=real tier=quick replay=engine
+func VerifC01_Default_CompletionFreesExactlyOne() { VerifC02_Default_Conservation() }
